@@ -667,6 +667,22 @@ class TermBuilder:
 
     # ------------------------------------------------------------------ subscripts and calls
     def _subscript(self, e: ast.Subscript, at: Node, _seen) -> Poly:
+        # a, b, c = (f(k) for k in ("x", "y", "z"))  ->  element i is f("x"|"y"|"z") with the constant substituted
+        if getattr(e, "_unpack_len", None) is not None and isinstance(e.value, (ast.GeneratorExp, ast.ListComp)) and isinstance(e.slice, ast.Constant) \
+                and isinstance(e.slice.value, int) and len(e.value.generators) == 1 and not e.value.generators[0].ifs:
+            g = e.value.generators[0]
+            if isinstance(g.iter, (ast.Tuple, ast.List)) and isinstance(g.target, ast.Name) and 0 <= e.slice.value < len(g.iter.elts):
+                const = g.iter.elts[e.slice.value]
+                tname = g.target.id
+
+                class _Sub(ast.NodeTransformer):
+                    def visit_Name(self, node):
+                        return ast.copy_location(const, node) if node.id == tname and isinstance(node.ctx, ast.Load) else node
+
+                import copy as _copy
+                elt = _Sub().visit(_copy.deepcopy(e.value.elt))
+                ast.fix_missing_locations(elt)
+                return self._term(elt, at, _seen)
         base = self._term(e.value, at, _seen)
         sl = e.slice
         origins = set(self.origins(base))
